@@ -24,6 +24,8 @@ pub struct ProdCfg {
     pub ctx_dependent: bool,
     /// keep every result id unique
     pub max_variadic: u64,
+    /// allow rare giant features (65k-word instructions, 65k+ byte strings, 300 distinct types, 66k tracked ids)
+    pub giant: bool,
 }
 
 impl ProdCfg {
@@ -36,6 +38,7 @@ impl ProdCfg {
             spec_ops: true,
             ctx_dependent: true,
             max_variadic: rng.range(0, 4),
+            giant: false,
         }
     }
 }
@@ -67,7 +70,7 @@ pub struct Group {
     pub items: Vec<Vec<MOp>>,
 }
 
-const STR_SAMPLES: &[&str] = &["", "a", "ab", "abc", "abcd", "abcde", "main", "GLSL.std.450", "OpenCL.std", "é", "日本", "😀", "a\"b\\c", "x y", "SPV_KHR_x", "tab\there", "nl\nx", "line1\nline2", "\n", "a\nbcdefg"];
+const STR_SAMPLES: &[&str] = &["", "a", "ab", "abc", "abcd", "abcde", "main", "GLSL.std.450", "OpenCL.std", "é", "日本", "😀", "a\"b\\c", "x y", "SPV_KHR_x", "tab\there", "nl\nx", "line1\nline2", "\n", "a\nbcdefg", "\u{feff}", "\u{feff}abc", "ab\u{feff}", "NonSemantic.DebugPrintf", "NonSemantic.Shader.DebugInfo.100"];
 
 impl<'r> Gen<'r> {
     pub fn new(rng: &'r mut Rng, cfg: ProdCfg) -> Gen<'r> {
@@ -93,6 +96,10 @@ impl<'r> Gen<'r> {
         id
     }
     pub fn some_id(&mut self) -> u32 {
+        if !self.no_forward && self.rng.chance(1, 40) {
+            // ids are arbitrary 32-bit words to the parser: boundary values
+            return *self.rng.pick(&[0u32, 0, 0x7FFF_FFFF, 0x8000_0000, 0xFFFF_FFFF]);
+        }
         if !self.ids.is_empty() && (self.no_forward || self.rng.chance(7, 8)) {
             *self.rng.pick(&self.ids)
         } else {
@@ -448,8 +455,10 @@ pub fn gen_stream(rng: &mut Rng, cfg: ProdCfg) -> Stream {
         }
         insts.push(g.inst(s.op("FunctionEnd")));
     }
-    let bound = g.next_id + g.rng.below(3) as u32;
-    Stream {
+    let mut bound = g.next_id + g.rng.below(3) as u32;
+    let giant = g.cfg.giant;
+    drop(g);
+    let mut stream = Stream {
         header: MHeader {
             version,
             generator,
@@ -457,7 +466,128 @@ pub fn gen_stream(rng: &mut Rng, cfg: ProdCfg) -> Stream {
             schema,
         },
         insts,
+    };
+    // one result id (and every reference to it) moved to a boundary value: 0, 2^31, u32::MAX
+    if rng.chance(1, 25) {
+        let rids: Vec<u32> = stream.insts.iter().filter_map(|i| i.rid).collect();
+        if !rids.is_empty() {
+            let old = *rng.pick(&rids);
+            let new = *rng.pick(&[0u32, 0, 0x8000_0000, 0xFFFF_FFFF, 0xFFFF_FFFE]);
+            if !rids.contains(&new) {
+                remap_id(&mut stream, old, new);
+            }
+        }
     }
+    if giant && rng.chance(1, 700) {
+        plant_giant(rng, &mut stream);
+        bound = stream.header.bound;
+        let _ = bound;
+    }
+    stream
+}
+
+/// replace id `old` by `new` wherever it occurs as result type, result id or id operand
+pub fn remap_id(stream: &mut Stream, old: u32, new: u32) {
+    let s = snap();
+    for i in stream.insts.iter_mut() {
+        if i.rtype == Some(old) {
+            i.rtype = Some(new);
+        }
+        if i.rid == Some(old) {
+            i.rid = Some(new);
+        }
+        for o in i.ops.iter_mut() {
+            if let MOp::W(k, v) = o {
+                if *v == old && s.cat(*k) == Cat::Id {
+                    *v = new;
+                }
+            }
+        }
+    }
+}
+
+/// Rare scale features: sizes at and beyond 16-bit boundaries.
+pub fn plant_giant(rng: &mut Rng, stream: &mut Stream) {
+    let s = snap();
+    let base = stream.header.bound + 1;
+    let at = stream.insts.iter().position(|i| i.is("Function")).unwrap_or(stream.insts.len());
+    match rng.below(5) {
+        0 => {
+            // a string operand around / beyond 65535 bytes (and far beyond), partly multi-byte
+            let n = *rng.pick(&[65_530usize, 65_531, 65_532, 65_535, 65_536, 65_537, 70_000, 131_072, 262_140, 262_150]);
+            // (the longest string one instruction can hold is 4 * 65533 - 1 bytes)
+            let n = n.min(4 * 65_533 - 1);
+            let mut st = String::with_capacity(n + 4);
+            let dense = rng.chance(1, 2);
+            while st.len() + 2 <= n {
+                if rng.chance(1, if dense { 3 } else { 50 }) {
+                    st.push('é');
+                } else {
+                    st.push((b'a' + rng.below(26) as u8) as char);
+                }
+            }
+            while st.len() < n {
+                st.push('x');
+            }
+            let inst = if rng.chance(1, 2) {
+                MInst { opcode: s.op("String"), rtype: None, rid: Some(base), ops: vec![MOp::S(st)] }
+            } else {
+                MInst { opcode: s.op("SourceExtension"), rtype: None, rid: None, ops: vec![MOp::S(st)] }
+            };
+            stream.insts.insert(at.min(stream.insts.len()), inst);
+        }
+        1 => {
+            // an instruction of exactly 0xFFFF / 0xFFFE / 0xFFFD words
+            let members = *rng.pick(&[65_533usize, 65_532, 65_531]);
+            let ops: Vec<MOp> = (0..members).map(|k| MOp::W(s.k_idref, 1 + (k as u32 % 7))).collect();
+            stream.insts.insert(at, MInst { opcode: s.op("TypeStruct"), rtype: None, rid: Some(base), ops });
+        }
+        2 => {
+            // more than 256 distinct int/float types, then a literal of a late 64-bit one
+            let mut k = 0u32;
+            let mut seq = vec![];
+            for w in 8..=128u32 {
+                for sign in 0..2u32 {
+                    seq.push(MInst { opcode: s.op("TypeInt"), rtype: None, rid: Some(base + k), ops: vec![MOp::W(s.k_lit32, if w == 64 { 65 } else { w }), MOp::W(s.k_lit32, sign)] });
+                    k += 1;
+                }
+            }
+            for w in [16u32, 32, 64] {
+                seq.push(MInst { opcode: s.op("TypeFloat"), rtype: None, rid: Some(base + k), ops: vec![MOp::W(s.k_lit32, w)] });
+                k += 1;
+            }
+            let f64_id = base + k - 1;
+            seq.push(MInst { opcode: s.op("Constant"), rtype: Some(f64_id), rid: Some(base + k), ops: vec![MOp::L64(0x1234_5678_9abc_def0)] });
+            k += 1;
+            for (j, i) in seq.into_iter().enumerate() {
+                stream.insts.insert(at + j, i);
+            }
+            stream.header.bound += k + 2;
+            return;
+        }
+        3 => {
+            // more than 65536 tracked ids in front of a 64-bit literal consumer
+            let n = *rng.pick(&[65_534u32, 65_535, 65_536, 65_540, 70_000]);
+            let mut seq = vec![MInst { opcode: s.op("TypeInt"), rtype: None, rid: Some(base), ops: vec![MOp::W(s.k_lit32, 64), MOp::W(s.k_lit32, 0)] }];
+            for k in 0..n {
+                seq.push(MInst { opcode: s.op("Undef"), rtype: Some(base), rid: Some(base + 1 + k), ops: vec![] });
+            }
+            seq.push(MInst { opcode: s.op("Constant"), rtype: Some(base), rid: Some(base + n + 1), ops: vec![MOp::L64(7)] });
+            // the undefs are global values (no function open): keep everything at module level
+            for (j, i) in seq.into_iter().enumerate() {
+                stream.insts.insert(at + j, i);
+            }
+            stream.header.bound += n + 4;
+            return;
+        }
+        _ => {
+            // a long single line: hundreds of id operands
+            let n = rng.range(170, 400) as usize;
+            let ops: Vec<MOp> = (0..n).map(|k| MOp::W(s.k_idref, 1000 + k as u32)).collect();
+            stream.insts.insert(at, MInst { opcode: s.op("TypeStruct"), rtype: None, rid: Some(base), ops });
+        }
+    }
+    stream.header.bound += 2;
 }
 
 /// Hot spot for the disassembler's extended-instruction naming: an import of a known set and an
@@ -465,7 +595,7 @@ pub fn gen_stream(rng: &mut Rng, cfg: ProdCfg) -> Stream {
 pub fn plant_ext_inst(rng: &mut Rng, stream: &mut Stream) {
     let s = snap();
     let set_id = stream.header.bound + 1;
-    let base = *rng.pick(&["GLSL.std.450", "GLSL.std.450", "OpenCL.std", "OpenCL.std", "NonSemantic.DebugPrintf", "GLSL.std.451"]);
+    let base = *rng.pick(&["GLSL.std.450", "GLSL.std.450", "OpenCL.std", "OpenCL.std", "NonSemantic.DebugPrintf", "NonSemantic.Shader.DebugInfo.100", "GLSL.std.451"]);
     // exact name, or a near miss: a prefix of it, optionally continued with multi-byte / other characters
     let name: String = if rng.chance(2, 3) {
         base.to_string()
@@ -507,6 +637,11 @@ pub fn plant_ext_inst(rng: &mut Rng, stream: &mut Stream) {
         ops,
     };
     // import goes to the front (module level); the ext inst right after the first label, or into a new function
+    if rng.chance(1, 6) {
+        // the same id imported twice, possibly as two different known sets (ids are not validated)
+        let other = *rng.pick(&["GLSL.std.450", "OpenCL.std", "NonSemantic.DebugPrintf"]);
+        stream.insts.insert(0, MInst { opcode: s.op("ExtInstImport"), rtype: None, rid: Some(set_id), ops: vec![MOp::S(other.to_string())] });
+    }
     stream.insts.insert(0, import);
     match stream.insts.iter().position(|i| i.is("Label")) {
         Some(k) => stream.insts.insert(k + 1, ext),
